@@ -785,11 +785,14 @@ func (h *hist) asyncAck2(k *pkt2) {
 // ---------------------------------------------------------------------------------------------
 // one history
 
-func runHistory(w *W, nops int) {
+func runHistory(w *W, nops int, histIndex int) {
 	h := &hist{w: w}
 	r := w.r
 	frozen := false
 	for i := 0; i < nops; i++ {
+		if i == 4 {
+			h.directedV2(histIndex)
+		}
 		if r.Chance(1, 7) {
 			h.lhOp()
 			continue
@@ -1068,4 +1071,53 @@ func (h *hist) lhOp() {
 			h.lhRelay(k, "timeout", w.r.Chance(1, 5))
 		}
 	}
+}
+
+// directed multi-payload vectors: every history sends and honestly relays one v2 packet whose payload
+// behaviours follow one of these vectors (cycled by history index), so that each position/behaviour
+// combination of the multi-payload receive loop is exercised in every run.
+var v2Vectors = [][]string{
+	{"d-async", "d-ok1"}, {"d-ok1", "d-async"}, {"d-async", "d-ok2", "d-raw"}, {"d-err", "d-ok1"}, {"d-ok1", "d-err"},
+	{"d-ok1", "d-ok2", "d-sent"}, {"d-sent", "d-ok1"}, {"d-ok1", "d-raw", "d-ok2", "d-ok1"}, {"d-cbfail", "d-ok1"},
+	{"d-ok2", "d-err0", "d-async"}, {"d-async"}, {"d-err"}, {"d-emptyack", "d-ok1"},
+}
+
+func (h *hist) directedV2(idx int) {
+	w := h.w
+	vec := v2Vectors[idx%len(v2Vectors)]
+	src := idx % 2
+	alias := (idx/2)%2 == 0
+	var id, cp string
+	if alias {
+		id, cp = w.ep(w.pU, src).ChannelID, w.ep(w.pU, 1-src).ChannelID
+	} else {
+		id, cp = w.ep(w.pV, src).ClientID, w.ep(w.pV, 1-src).ClientID
+	}
+	_, t := w.begin(src)
+	tt := t/1e9 + 3600
+	var pays []channeltypesv2.Payload
+	pd := []any{}
+	for _, v := range vec {
+		y := channeltypesv2.NewPayload(mockv2.PortIDA, mockv2.PortIDB, "v1", "json", []byte(v))
+		pays = append(pays, y)
+		pd = append(pd, w.paydesc(y))
+	}
+	w.p2desc(channeltypesv2.NewPacket(1, id, cp, tt, pays...))
+	msg := channeltypesv2.NewMsgSendPacket(id, tt, w.ch[src].SenderAccount.GetAddress().String(), pays...)
+	out, res := w.tx(src, map[string]any{"k": "send2", "src": w.ids.id(id), "tt": hx.U(tt), "pay": pd, "signer": 7}, nil, msg)
+	if out != "ok" {
+		return
+	}
+	seq := sendSeq(res)
+	q := channeltypesv2.NewPacket(seq, id, cp, tt, pays...)
+	w.p2desc(q)
+	k := &pkt2{src: src, q: q, alias: alias}
+	h.p2 = append(h.p2, k)
+	if seq > w.maxSeq {
+		w.maxSeq = seq
+	}
+	w.steps[len(w.steps)-1]["ret_seq"] = hx.U(seq)
+	// honest relay: make sure the destination's client knows the committed state, then receive
+	w.updateClient(1-src, h.clientV2(1-src, alias))
+	h.recv2(k, false)
 }
